@@ -68,7 +68,7 @@ OP_CLASSES = {
     "construct": ["vec_list", "vec_list", "vec_tuple", "table_dict", "table_vecs", "vec_of_vecs", "rshift", "rshift", "lshift",
                   "table_dupnames"],
     "derive": ["copy", "slice", "mask", "index", "select", "rows_cols", "transpose", "sort", "join", "aggregate", "window",
-               "math", "compare", "unary", "cast", "fillna", "dropna", "isna", "unique", "proxy", "to_object", "vtranspose", "row_index"],
+               "math", "compare", "unary", "cast", "fillna", "dropna", "isna", "unique", "proxy", "to_object", "vtranspose", "row_index", "select2d", "select2d"],
     "read": ["repr", "fingerprint", "len_shape", "iterate", "dir", "schema", "reduce"],
     "view": ["col_view", "col_view", "attr_view", "name_view"],
     "write": ["set_int", "set_int", "set_slice", "set_mask", "set_index", "tset_cell", "tset_row", "tset_col", "tset_region",
@@ -533,6 +533,35 @@ class World:
         n = len(a.obj)
         key = slice(0, max(0, n - 1))
         return self._derive("rows_cols", a, lambda: a.obj[key][sel])
+
+    def op_select2d(self, step):
+        """t[rows, cols] in one key: a row slice (all rows, a part, reversed) with one column (by position or name), a column
+        slice or a tuple of names - a new vector / table holding exactly those cells"""
+        a = self.pick(step[1], "table")
+        if a is None or not a.obj.cols():
+            return None
+        n, k = len(a.obj), len(a.obj.cols())
+        rows = [slice(None), slice(0, n), slice(1, max(1, n - 1)), slice(None, None, -1), slice(0, max(0, n - 1)), slice(1, None)][step[2] % 6]
+        names = a.obj.column_names()
+        c = step[3] % k
+        uniq = [nm for nm in names if isinstance(nm, str) and list(names).count(nm) == 1]
+        form = ["int", "name", "slice", "names", "int", "name"][step[3] % 6]
+        if form in ("name", "names") and not uniq:
+            form = "int"
+        if form == "int":
+            cols, picked = c, [c]
+        elif form == "name":
+            nm = uniq[c % len(uniq)]
+            cols, picked = nm, [list(names).index(nm)]
+        elif form == "slice":
+            cs = slice(0, 1 + c)
+            cols, picked = cs, list(range(k))[cs]
+        else:
+            sel = tuple(uniq[(c + i) % len(uniq)] for i in range(1 + step[2] % 2))
+            cols, picked = sel, [list(names).index(nm) for nm in sel]
+        si = self._derive("select2d", a, lambda: a.obj[rows, cols])
+        si.info.update(rows=rows, cols=cols, picked=picked, form=form)
+        return si
 
     def op_transpose(self, step):
         a = self.pick(step[1], "table")
